@@ -33,7 +33,7 @@ func smallBig(b *big.Int, big_ *bool) int64 {
 	if b == nil {
 		return 0
 	}
-	if !b.IsInt64() || b.Int64() > 1<<30 {
+	if !b.IsInt64() || b.Int64() > 2_100_000_000 { // TLC's integers are 32-bit
 		*big_ = true
 		return 0
 	}
